@@ -44,8 +44,9 @@ Step ==
      ELSE LET key == S(E.obs.applied)
               o == Obs(E.obs)
           IN  IF key \in DOMAIN seen
-              THEN /\ Chk("C01", "same-changes-same-heads", seen[key].heads = o.heads)
-                   /\ Chk("C01", "same-changes-same-document", seen[key].view = o.view)
+              THEN LET P == IF E.ev = "saveload" THEN "C11" ELSE "C01" IN
+                   /\ Chk(P, "same-changes-same-heads", seen[key].heads = o.heads)
+                   /\ Chk(P, "same-changes-same-document", seen[key].view = o.view)
                    /\ UNCHANGED seen
               ELSE seen' = (key :> o) @@ seen
 
